@@ -63,3 +63,45 @@ package entity
 //@   props C17
 //@   nopanic
 //@   requires ci != nil
+
+// Merge results (C02): the constructors set exactly the documented fields.
+//@ func NewMergeNewStatus
+//@   props C02
+//@   purefn
+//@   ensures result.Status == MergeStatusNew && result.Entity == entity && result.Id == id && result.Err == nil
+//@ func NewMergeUpdatedStatus
+//@   props C02
+//@   purefn
+//@   ensures result.Status == MergeStatusUpdated && result.Entity == entity && result.Id == id && result.Err == nil
+//@ func NewMergeInvalidStatus
+//@   props C02
+//@   purefn
+//@   ensures result.Status == MergeStatusInvalid && result.Entity == nil && result.Id == id && result.Err == nil
+//@ func NewMergeNothingStatus
+//@   props C02
+//@   purefn
+//@   ensures result.Status == MergeStatusNothing && result.Entity == nil && result.Id == id && result.Err == nil
+//@ func NewMergeError
+//@   props C02
+//@   purefn
+//@   ensures result.Status == MergeStatusError && result.Entity == nil && result.Id == id && result.Err == err
+
+//@ func RefToId
+//@   props C02 C07
+//@   purefn
+//@   nopanic
+
+// entityHead(e): the commit an in-memory entity was read from / last committed at (ghost).
+//@ spec func entityHead(e Interface) repository.Hash
+
+// Validation reads only.
+//@ func Id.Validate
+//@   props C07 C13
+//@   nopanic
+//@   modifies nothing
+//@ func CombinedId.Validate
+//@   props C07 C13
+//@   nopanic
+//@   modifies nothing
+//@ func Interface.Validate
+//@   modifies nothing
